@@ -42,7 +42,7 @@ func c13Env() map[string]any {
 		"n": 5, "k": 2, "f": 1.5, "s": "str", "e": "", "t": true, "b": false, "ns": "42",
 		"sp1": "a b", "sp2": "a  b", "up": "A  b",
 		// variables whose names strconv would take for a boolean or a float
-		"T": 2, "nan": 4, "F": "eff", "big": 300, "minus": -1, "ix": 1, "kk": "k", "mm": map[string]any{"kk": "LIT", "k": "VAR"}, "fname": "secret.path", "secret": map[string]any{"path": "b.txt"}, "fbig": 1500000.0, "fsmall": 0.00002, "fneg": -2.5e7, "zp": "010", "zip": "08540", "eq3": "a===b", "ne3": "a!==b", "amp2": "a && b", "q3": "a ? b : c",
+		"T": 2, "nan": 4, "F": "eff", "big": 300, "minus": -1, "ix": 1, "kk": "k", "ue": "h\u00e9llo", "mm": map[string]any{"kk": "LIT", "k": "VAR"}, "fname": "secret.path", "secret": map[string]any{"path": "b.txt"}, "fbig": 1500000.0, "fsmall": 0.00002, "fneg": -2.5e7, "zp": "010", "zip": "08540", "eq3": "a===b", "ne3": "a!==b", "amp2": "a && b", "q3": "a ? b : c",
 		"m":  map[string]any{"k": "mk", "l": []any{"x", "y"}, "n": 7},
 		"l":  []int{10, 20},
 		"st": c13Struct{Field: "SF", Num: 3},
@@ -403,6 +403,17 @@ func c13ObserveEnv(ctx *core.Ctx, t vuego.Template, pos, expr string, env map[st
 		tpl = `<b v-if="b">n</b><p id="r" v-else-if=` + q + expr + q + `>x</p>`
 	case "vshow":
 		tpl = `<p id="r" v-show=` + q + expr + q + `>x</p>`
+	// further places that take an expression (used by the error part: a failing function ends the render there too)
+	case "classobj":
+		tpl = `<p id="r" :class=` + q + `{on: ` + expr + `, k: t}` + q + `>x</p>`
+	case "styleobj":
+		tpl = `<p id="r" style="top: 0" :style=` + q + `{color: ` + expr + `}` + q + `>x</p>`
+	case "tmplbind":
+		tpl = `<template :y=` + q + expr + q + `><p id="r">[{{ y }}]</p></template>`
+	case "tmplbindif":
+		tpl = `<template v-if="t" v-bind:y=` + q + expr + q + `><p id="r">[{{ y }}]</p></template>`
+	case "objprop":
+		tpl = `<template :o=` + q + `{a: ` + expr + `}` + q + `><p id="r">[{{ o.a }}]</p></template>`
 	}
 	var buf bytes.Buffer
 	ctx.Eval(1)
@@ -639,8 +650,15 @@ func (c *c13Case) Run(ctx *core.Ctx) {
 			}
 		}
 	case "error":
-		for _, pos := range []string{"mustache", "bind", "vif", "vshow"} {
+		positions := []string{"mustache", "bind", "vif", "vshow"}
+		if !strings.Contains(c.Expr, "|") {
+			positions = append(positions, "classobj", "styleobj", "tmplbind", "tmplbindif", "objprop")
+		}
+		for _, pos := range positions {
 			got, err := c13Observe(ctx, pos, c.Expr)
+			if err != nil && err.Error() == "unquotable" {
+				continue
+			}
 			if err == nil {
 				shape := c.Shape
 				if strings.Contains(c.Expr, "|") && (pos == "vif" || pos == "vshow") {
@@ -901,7 +919,11 @@ func init() {
 			for _, e := range []struct{ expr, want string }{
 				{"double(n) + 1", "int:11"}, {"double(n) > 5", "bool:true"}, {"shout(s) == 'STR!'", "bool:true"}, {"isbig(n) && t", "bool:true"}, {"isbig(n) ? 'big' : 'small'", "string:big"}, {"len(s) + 1", "int:4"},
 				{"!isbig(n)", "bool:false"}, {"!isbig(k)", "bool:true"}, {"isbig(k) || isbig(n)", "bool:true"}, {"double(addn(n, 3)) + 1", "int:17"}, {"double(n) + double(k)", "int:14"}, {"n + double(k) * 2", "int:13"},
-				{"'nosuch(1)' + s", "string:nosuch(1)str"}, {"(n) + 1", "int:6"}, {"not (n > k)", "bool:false"},
+				// registered functions that share their name with one of the expression library: the registered one is meant
+				{"len(ue) == 6", "bool:true"}, {"len(ue) + 0", "int:6"}, {"len(ue) > 5 && t", "bool:true"}, {"type(f) == 'float64'", "bool:true"}, {"type(n) + '!'", "string:int!"}, {"upper(ue) + '!'", "string:H\u00c9LLO!"},
+				{"'nosuch(1)' + s", "string:nosuch(1)str"},
+				// a name that is registered as a function but only mentioned (not called) is the variable of that name - here: undefined
+				{"len(l) > 0 && title", "bool:false"}, {"len(l) > 0 && !title", "bool:true"}, {"(title)", "nil:"}, {"double(n) > 0 && shout", "bool:false"}, {"(upper) == nil", "bool:true"}, {"(n) + 1", "int:6"}, {"not (n > k)", "bool:false"},
 			} {
 				emit(&c13Case{Part: "expr", Expr: e.expr, Shape: "registered-function-in-operator-expression", Want: e.want})
 			}
